@@ -33,7 +33,19 @@ def jobs(tier):
                     pass
                 J.append(dict(harness=('tableau', 'h_measure'), params=dict(N=N, r=r, L=N - ro, goals='born', obs_state_rank=ro, repeat=(N == 1 or ro == 1)), timeout_s=600,
                               cost=40 * N, label='h_measure[N=%d,r=%d,observables=active stabilizers of a rank-%d state]' % (N, r, ro)))
+    for N in (1, 2):
+        for r in range(N + 1):
+            for form in ('state', 'view', 'copy', 'copy_of_state'):
+                J.append(dict(harness=('tableau', 'h_measure_self'), params=dict(N=N, r=r, form=form), timeout_s=300, cost=10))
+    if tier == 'quick':
+        # three qubits: determined observables that are products of three generators need N - r >= 3 (all 64 strings x 4 ranks in the thorough tier)
+        for fix, r in (((0, 1, 1, 1, 0, 1), 0), ((1, 0, 1, 1, 0, 1), 0), ((1, 1, 1, 1, 1, 1), 0), ((0, 1, 0, 0, 0, 1), 0), ((0, 1, 1, 1, 0, 1), 1), ((1, 1, 0, 1, 1, 0), 2)):
+            J.append(dict(harness=('tableau', 'h_measure'), params=dict(N=3, r=r, L=1, fix=[list(fix)], goals='born', repeat=False),
+                          timeout_s=300, cost=30, label='split64:h_measure[N=3,r=%d,obs=%s]' % (r, ''.join(map(str, fix)))))
     if tier == 'thorough':
+        for form in ('state', 'view'):
+            for r in range(4):
+                J.append(dict(harness=('tableau', 'h_measure_self'), params=dict(N=3, r=r, form=form), timeout_s=600, cost=60))
         for fix in itertools.product((0, 1), repeat=6):
             for r in range(4):
                 J.append(dict(harness=('tableau', 'h_measure'), params=dict(N=3, r=r, L=1, fix=[list(fix)], goals='born', repeat=False),
